@@ -65,7 +65,20 @@ RULE = (
     'float64 and allows rtol 1e-4 there because the library converts in the '
     'float32 precision of VGLVLS; 1-3 successive interpSigma calls on the '
     'SAME file object with different targets / interptypes / vgtop, every '
-    'call judged against the original source.  Raises are counted, never violations (R3).  '
+    'call judged against the original source.  gcsigma: the interpSigma of '
+    'bpch_base and gcnc_base (linear only; conserve raises and is counted) '
+    'on files built in memory with the variables they read (etai_pressure, '
+    'or P0/hyai/hybi), vgtop 0 or 1600 Pa, extrapolate False/True, target '
+    'grids incl. thin surface/top layers whose mid-points lie outside the '
+    'source mid-points; oracle: sigma = (p - vgtop)/(p_surface - vgtop), '
+    'reference interpolation between layer mid-points for a field, a 1-D '
+    'profile, a profile linear in sigma and a constant (1e-9); the reduced-'
+    'layer trick (weights[:nlay] for variables on a shorter layer dimension) '
+    'is not judged.  Repeated dimension: in 1/3 of the interpdim, sigma and '
+    'gcsigma files a variable K carries the interpolated dimension on two '
+    'axes (K(z,z), K(a,z,z), K(z,a,z), K(LAY,LAY)); the operator must be '
+    'applied along both (W^T K W; conserve: M^T K M with M the interval-'
+    'overlap matrix).  Raises are counted, never violations (R3).  '
     'Non-trivial: interleaved edges/targets, or a non-leading interpolation '
     'axis, or a descending coordinate.  Distinct by sha1 of the case spec.')
 ASSUMPTIONS = ['float64 arithmetic with dyadic inputs; tolerance 1e-9 '
@@ -235,6 +248,15 @@ def case_interpdim(draw):
         extra = dict(name='keep', dims=[d], data=_field(draw, olen[d]),
                      dtype='f8')
     kind = draw(st.sampled_from(['interpdim', 'interpdim', 'interpvars']))
+    kvar = None
+    if kind == 'interpdim' and draw(st.integers(0, 2)) == 0:
+        # averaging kernel / covariance: the interpolated dimension on TWO
+        # axes, K(z, z) or K(a, z, z) / K(z, a, z)
+        kd = draw(st.sampled_from([['z', 'z']] + (
+            [[others[0], 'z', 'z'], ['z', others[0], 'z']] if others
+            else [['z', 'z']])))
+        size = int(np.prod([n if d == 'z' else olen[d] for d in kd]))
+        kvar = dict(name='K', dims=kd, data=_field(draw, size), dtype='f8')
     if kind == 'interpvars' and len(t) == n:
         # interpvars finds the old axis of the (new, old) weight matrix by
         # its length: new == old is outside its domain
@@ -245,7 +267,7 @@ def case_interpdim(draw):
                 extrapolate=draw(st.booleans()), olen=olen, vars=vs,
                 extra=extra, order=draw(st.sampled_from(['z-first',
                                                          'z-last'])),
-                unlimited=draw(st.booleans()))
+                unlimited=draw(st.booleans()), kvar=kvar)
 
 
 @st.composite
@@ -338,13 +360,55 @@ def case_sigma(draw):
                          extrapolate=draw(st.booleans()),
                          vgtop=draw(st.sampled_from(VGTOPS))))
     spec['more'] = more
+    spec['kfield'] = _field(draw, nl * nl) if draw(st.integers(0, 2)) == 0 \
+        else None
     return spec
+
+
+@st.composite
+def case_gcsigma(draw):
+    """interpSigma of the GEOS-Chem classes (bpch_base, gcnc_base): files
+    built in memory with the variables the methods read (etai_pressure /
+    P0, hyai, hybi); linear only (conserve is not implemented there)"""
+    cls = draw(st.sampled_from(['bpch', 'gcnc']))
+    nl = draw(st.sampled_from([2, 2, 3, 3, 4, 5, 6, 8]))
+    src = draw(sigma_edges(64, 0, nl))
+    ml = draw(st.sampled_from([1, 2, 3, 3, 4, 5, 6, 8]))
+    style = draw(st.sampled_from(['indep', 'thin-ends', 'thin-ends', 'same']))
+    if style == 'same':
+        dst = list(src)
+    elif style == 'thin-ends':
+        # thin surface and/or top layers: their mid-points lie outside the
+        # source mid-points (the extrapolation zone)
+        inner = draw(st.lists(st.integers(3, 61), min_size=0,
+                              max_size=max(0, ml - 2), unique=True))
+        ks = set([64, 0] + inner)
+        if draw(st.booleans()):
+            ks.add(63)
+        if draw(st.booleans()) or 63 not in ks:
+            ks.add(1)
+        dst = [k / 64. for k in sorted(ks, reverse=True)]
+    else:
+        dst = draw(sigma_edges(64, 0, ml))
+    nt, ny = draw(st.integers(1, 2)), draw(st.integers(1, 3))
+    return dict(kind='gcsigma', cls=cls, src=src, dst=dst, shape=[nt, ny],
+                field=_field(draw, nt * nl * ny),
+                prof=_field(draw, nl),
+                ab=[draw(st.integers(-8, 8)) / 2.,
+                    draw(st.integers(-20, 20)) / 4.],
+                const=draw(st.integers(-40, 40)) / 4.,
+                interptype=draw(st.sampled_from(['linear'] * 7 +
+                                                ['conserve'])),
+                extrapolate=draw(st.booleans()),
+                vgtop=draw(st.sampled_from([0.0, 0.0, 1600.0])),
+                kfield=_field(draw, nl * nl) if draw(st.integers(0, 2)) == 0
+                else None)
 
 
 def strategy(tier):
     return st.one_of(case_weights(), case_weights(), case_interpdim(),
                      case_interpdim(), case_coordkey(), case_sigma(),
-                     case_sigma())
+                     case_sigma(), case_gcsigma())
 
 
 # ------------------------------------------------------------------ checks
@@ -475,7 +539,8 @@ def _build_interp_file(spec):
     cv = f.createVariable('z', 'd', ('z',))
     cv[:] = np.array(xs, dtype='d')
     arrays = {}
-    for v in spec['vars'] + ([spec['extra']] if spec['extra'] else []):
+    for v in spec['vars'] + ([spec['extra']] if spec['extra'] else []) + \
+            ([spec['kvar']] if spec.get('kvar') else []):
         shape = tuple(n if d == 'z' else olen[d] for d in v['dims'])
         code = _CODES[v['dtype']]
         arr = np.array(v['data'], dtype=code).reshape(shape)
@@ -648,6 +713,23 @@ def check_interpdim(spec, r):
                     klass + '/axis%s' % ('0' if ax == 0 else '>0'),
                     '(interpolated along axis %d; xs=%r, targets=%r)' % (
                         ax, xs, t))
+    if spec.get('kvar'):
+        # repeated dimension: the interpolation applies along BOTH axes
+        # (W^T K W for the matrix case, as the unchanged tree does)
+        kv = spec['kvar']
+        r.label('repeated-dim:' + '-'.join(kv['dims']))
+        axes = [i for i, d in enumerate(kv['dims']) if d == 'z']
+        want = arrays['K'].astype('d')
+        for ax in axes[::-1]:
+            want = ref_along(xs, want, ax, t, ex)
+        if 'K' not in out_f.variables:
+            r.fail('var-missing', 'variable K missing', klass=klass)
+        else:
+            _cmp_interp(r, 'interp-repeated-dim', 'K', kv,
+                        out_f.variables['K'], want, arrays,
+                        klass + '/repeated-dim',
+                        '(interpolated along axes %r; xs=%r, targets=%r)' % (
+                            axes, xs, t))
     if spec['extra']:
         name = spec['extra']['name']
         if name not in out_f.variables or not np.array_equal(
@@ -787,6 +869,12 @@ def check_sigma(spec, r):
         FLD=field, CST=const,
         fileattrs=dict(VGLVLS=src.astype('f'), VGTOP=np.float32(FILE_VGTOP),
                        SDATE=2000001, STIME=0, TSTEP=10000))
+    kfield = None
+    if spec.get('kfield') is not None:
+        kfield = np.array(spec['kfield'], dtype='d').reshape(nl, nl)
+        kv = f.createVariable('K', 'd', ('LAY', 'LAY'))
+        kv[:] = kfield
+        r.label('repeated-dim:LAY-LAY')
     calls = [dict(dst=spec['dst'], interptype=spec['interptype'],
                   extrapolate=spec['extrapolate'],
                   vgtop=spec.get('vgtop'))] + list(spec.get('more') or [])
@@ -795,9 +883,24 @@ def check_sigma(spec, r):
                              for c in calls):
         r.nontrivial = True
     for ci, call in enumerate(calls):
-        _sigma_call(f, src, call, field, spec['const'], r, ci)
+        _sigma_call(f, src, call, field, spec['const'], r, ci, kfield)
         if r.failures:
             return
+
+
+def overlap_matrix(src, dst):
+    """M[k, l] = thickness of (source layer k intersected with target layer
+    l) / thickness of target layer l, by interval arithmetic: the conservative
+    regridding operator v'_l = sum_k M[k, l] v_k"""
+    src = np.asarray(src, dtype='d')
+    dst = np.asarray(dst, dtype='d')
+    M = np.zeros((src.size - 1, dst.size - 1))
+    for k in range(src.size - 1):
+        a0, a1 = sorted((src[k], src[k + 1]))
+        for j in range(dst.size - 1):
+            b0, b1 = sorted((dst[j], dst[j + 1]))
+            M[k, j] = max(0.0, min(a1, b1) - max(a0, b0)) / (b1 - b0)
+    return M
 
 
 def sigma_convert(sig, vgtop_from, vgtop_to, psfc=101325.):
@@ -808,7 +911,7 @@ def sigma_convert(sig, vgtop_from, vgtop_to, psfc=101325.):
     return (p - vgtop_to) / (psfc - vgtop_to)
 
 
-def _sigma_call(f, src, call, field, constval, r, ci):
+def _sigma_call(f, src, call, field, constval, r, ci, kfield=None):
     nt, nl, nr, nc = field.shape
     it = call['interptype']
     vgtop = call.get('vgtop')
@@ -890,10 +993,144 @@ def _sigma_call(f, src, call, field, constval, r, ci):
         if not (np.abs(gotc - constval) <= ctol * sc).all():
             r.fail('constant-field', 'linear: constant %r became %r %s' % (
                 constval, np.unique(gotc).tolist()[:6], what), klass=klass)
+    if kfield is not None:
+        # K(LAY, LAY): the regridding applies along both axes
+        if it == 'conserve':
+            M = overlap_matrix(srcv, dst)
+            wantk = M.T.dot(kfield).dot(M)
+            ktol = rtol_mass
+        else:
+            wantk = ref_along(zs, ref_along(zs, kfield, 1, nzs, ex), 0, nzs,
+                              ex)
+            ktol = rtol_lin
+        gk = np.asarray(o.variables['K'][...], dtype='d') \
+            if 'K' in o.variables else None
+        sc = _scale(kfield, wantk)
+        if gk is None or gk.shape != wantk.shape or \
+                not (np.abs(gk - wantk) <= max(ktol, 1e-9) * sc).all():
+            r.fail('sigma-repeated-dim', 'K(LAY, LAY) after interpSigma(%s) '
+                   '= %r, expected the operator on both axes %r %s' % (
+                       it, None if gk is None else gk.tolist(),
+                       wantk.tolist(), what),
+                   klass=it + '/repeated-dim/' + tag)
     nv = np.asarray(o.VGLVLS, dtype='d')
     if nv.shape != dst.shape or not np.array_equal(nv, dst.astype('f')):
         r.fail('sigma-vglvls', 'VGLVLS after interpSigma %r, requested %r' %
                (nv.tolist(), dst.tolist()), klass=it)
+
+
+def check_gcsigma(spec, r):
+    """bpch_base.interpSigma / gcnc_base.interpSigma: source sigma from the
+    file's interface pressures, sigma = (p - vgtop) / (p_surface - vgtop);
+    linear interpolation between layer mid-points"""
+    cls = spec['cls']
+    src = np.array(spec['src'], dtype='d')
+    dst = np.array(spec['dst'], dtype='d')
+    nl, ml = src.size - 1, dst.size - 1
+    nt, ny = spec['shape']
+    vgtop = float(spec['vgtop'])
+    ex = bool(spec['extrapolate'])
+    it = spec['interptype']
+    # interface pressures in hPa realising the sigma edges for this vgtop
+    # with a 1024 hPa surface (dyadic, so the sigma values are recovered to
+    # rounding)
+    p_hpa = (vgtop + src * (102400. - vgtop)) / 100.
+    if cls == 'bpch':
+        from PseudoNetCDF.geoschemfiles._bpch import bpch_base as klass_
+        ld, ed = 'layer', 'layer_bounds'
+    else:
+        from PseudoNetCDF.geoschemfiles._gcnc import gcnc_base as klass_
+        ld, ed = 'lev', 'ilev'
+    f = klass_()
+    f.createDimension('time', nt)
+    f.createDimension(ld, nl)
+    f.createDimension('y', ny)
+    f.createDimension(ed, nl + 1)
+    if cls == 'bpch':
+        v = f.createVariable('etai_pressure', 'd', (ed,))
+        v[:] = p_hpa
+    else:
+        v = f.createVariable('P0', 'd', ())
+        v[...] = 1024.
+        # hybrid coefficients: p = P0 * hybi + hyai
+        b = src * 0.5
+        v = f.createVariable('hybi', 'd', (ed,))
+        v[:] = b
+        v = f.createVariable('hyai', 'd', (ed,))
+        v[:] = p_hpa - 1024. * b
+    field = np.array(spec['field'], dtype='d').reshape(nt, nl, ny)
+    prof = np.array(spec['prof'], dtype='d')
+    # the source sigma as the pressure definition gives it
+    p = p_hpa * 100.
+    if cls == 'gcnc':
+        p = (1024. * (src * 0.5) + (p_hpa - 1024. * (src * 0.5))) * 100.
+    srcv = (p - vgtop) / (p[0] - vgtop)
+    zs = (srcv[:-1] + srcv[1:]) / 2
+    nzs = (dst[:-1] + dst[1:]) / 2
+    a, b_ = spec['ab']
+    lin = a * zs * 8 + b_
+    vals = dict(FLD=(('time', ld, 'y'), field),
+                PROF=((ld,), prof),
+                LIN=((ld,), lin),
+                CST=((ld, 'y'), np.full((nl, ny), spec['const'])))
+    kfield = None
+    if spec.get('kfield') is not None:
+        kfield = np.array(spec['kfield'], dtype='d').reshape(nl, nl)
+        vals['K'] = ((ld, ld), kfield)
+    for name, (dims, arr) in vals.items():
+        var = f.createVariable(name, 'd', dims)
+        var[...] = arr
+    outside = bool(((nzs > zs.max()) | (nzs < zs.min())).any())
+    r.label('kind:gcsigma', 'class:' + cls, 'interptype:' + it,
+            'extrapolate:%s' % ex, 'vgtop:%g' % vgtop,
+            'target-midpoints:' + ('outside-source' if outside else
+                                   'inside-source'))
+    if kfield is not None:
+        r.label('repeated-dim:%s-%s' % (ld, ld))
+    sset = set(src.tolist())
+    r.nontrivial = bool(any(e not in sset for e in dst.tolist()) or outside)
+    with np.errstate(all='ignore'):
+        exc, o = attempt(f.interpSigma, dst.copy(), vgtop=vgtop,
+                         interptype=it, extrapolate=ex)
+    if exc is not None:
+        r.label('raised', 'raised:' + exc_where(exc))
+        return
+    klass = '%s/%s' % (cls, 'extrap' if ex else 'clip')
+    if ld not in o.dimensions or len(o.dimensions[ld]) != ml:
+        r.fail('dim-length', '%s has length %s after interpSigma, expected '
+               '%d' % (ld, len(o.dimensions[ld]) if ld in o.dimensions
+                       else None, ml), klass=klass)
+        return
+    what = '(%s_base, vgtop=%r, extrapolate=%s, source mid-points %r -> ' \
+        'target mid-points %r)' % (cls, vgtop, ex, zs.tolist(), nzs.tolist())
+    for name, (dims, arr) in vals.items():
+        if name == 'K':
+            want = ref_along(zs, ref_along(zs, arr, 1, nzs, ex), 0, nzs, ex)
+            clause = 'sigma-repeated-dim'
+        else:
+            want = ref_along(zs, arr, dims.index(ld), nzs, ex)
+            clause = {'LIN': 'linear-exact', 'CST': 'constant-field'}.get(
+                name, 'sigma-linear')
+        if name not in o.variables:
+            r.fail('var-missing', 'variable %s missing' % name, klass=klass)
+            continue
+        got = np.asarray(o.variables[name][...], dtype='d')
+        sc = _scale(arr, want)
+        if got.shape != want.shape or \
+                not (np.abs(got - want) <= TOL * sc).all():
+            where = ''
+            if got.shape == want.shape:
+                bad = np.argwhere(~(np.abs(got - want) <= TOL * sc))[0]
+                where = 'at %r got %r, reference %r ' % (
+                    tuple(bad.tolist()), got[tuple(bad)], want[tuple(bad)])
+                lay = int(bad[list(dims).index(ld)])
+                zone = 'outside' if (nzs[lay] > zs.max() or
+                                     nzs[lay] < zs.min()) else 'inside'
+            else:
+                where = 'shape %r, expected %r ' % (got.shape, want.shape)
+                zone = 'shape'
+            r.fail(clause, 'variable %s%r: %s%s' % (name, dims, where, what),
+                   klass=klass + '/' + zone)
 
 
 def check_case(spec):
@@ -909,6 +1146,8 @@ def check_case(spec):
         check_coordkey(spec, r)
     elif kind == 'sigma':
         check_sigma(spec, r)
+    elif kind == 'gcsigma':
+        check_gcsigma(spec, r)
     else:
         raise ValueError(kind)
     return r
